@@ -257,6 +257,19 @@ func (g *ilvGen) mutate() *Node {
 				Call("string:join", Call("map", QS("list"), A("to-string"), v), Str("-")),
 				Call("base64:encode", Call("to-bytes", Str("abc"))))), A(name))
 		}
+		if g.r.Chance(1, 3) {
+			// refusals raised by the libraries themselves (the error value
+			// is stamped with position and stack by the runtime that raises it)
+			bad := PickStr(g.r, []string{
+				"(progn (s:deftype \"zq1\" s:int (s:gt 3)) (s:validate zq1 1))", "(progn (s:deftype \"zq2\" s:int (s:lt 3)) (s:validate zq2 5))",
+				"(progn (s:deftype \"zq3\" s:int (s:gte 3)) (s:validate zq3 1))", "(progn (s:deftype \"zq4\" s:int (s:lte 3)) (s:validate zq4 5))",
+				"(progn (s:deftype \"zq5\" s:int (s:positive)) (s:validate zq5 -1))", "(progn (s:deftype \"zq6\" s:int (s:negative)) (s:validate zq6 1))",
+				"(progn (s:deftype \"zq7\" s:string (s:in \"a\" \"b\")) (s:validate zq7 \"c\"))", "(progn (s:deftype \"zq8\" s:string (s:len 2)) (s:validate zq8 \"abc\"))",
+				"((s:gt 3) 1)", "((s:lt 3) 1)", "((s:in \"a\") \"b\")", "(s:validate s:int \"x\")",
+				"(json:load-string \"{bad\")", "(regexp:regexp-match? \"(\" \"x\")",
+				"(base64:decode \"!!\")", "(time:parse-rfc3339 \"x\")", "(time:parse-duration \"x\")", "(to-int \"x\")", "(string:repeat \"a\" -1)", "(math:sqrt \"x\")"})
+			return A(fmt.Sprintf("(handler-bind ((condition (lambda (c &rest zd) (list c zd)))) %s)", bad))
+		}
 		return PickNode(g.r,
 			Call("regexp:regexp-match?", Str(pat), Str("xaab12kc")),
 			Call("json:dump-string", Call("sorted-map", Str("k"), v)),
@@ -346,7 +359,16 @@ func (ilvEngine) Gen(r *Rand, tier string) any {
 	}
 	n := r.Range(3, 9)
 	for i := 0; i < n; i++ {
-		switch r.Pick([]int{10, 3, 2, 2, 2, 2, 1, 1, 2, 2}) {
+		switch r.Pick([]int{10, 3, 2, 2, 2, 2, 1, 1, 2, 2, 2}) {
+		case 10:
+			// operators that evaluate some of their operands only on one path
+			// (a failing assert renders its message arguments)
+			body = append(body, A("(sim:probe 'as (handler-bind ((condition (lambda (c &rest zd) (list c zd)))) "+PickStr(r, []string{
+				"(assert (= ctr 0) \"ctr {} {}\" (+ ctr 1) (* 2 ctr))", "(assert (> ctr 0) \"ctr {}\" (+ ctr 1))", "(assert (= ctr 0))",
+				"(assert (= ctr 0) \"plain\")", "(assert-equal ctr 0)", "(assert (string? ctr) \"{} {} {}\" ctr (list ctr ctr) (vector ctr))",
+				"(cond ((= ctr 0) (+ ctr 1)) ((> ctr 0) (* 2 ctr)) (:else (- ctr)))", "(or (= ctr 0) (+ ctr 1) (* 2 ctr))", "(and (> ctr 0) (+ ctr 1) (* 2 ctr))",
+				"(if (= ctr 0) (+ ctr 1) (* 2 ctr))", "(dotimes (zi ctr (* zi ctr)) (+ zi 1))",
+			})+"))"))
 		case 9:
 			// values the interpreter hands out for type names and in
 			// argument-type errors, also through a macro expansion (which is
